@@ -164,9 +164,19 @@ def layout_case(draw):
         if name == 'stacks' and how in ('dict', 'shorter'):
             how, rep = 'list', list(v)     # every stack must be positive
         reps[name] = (how, rep)
+    game = draw(st.sampled_from(['NT', 'NT', 'FT', 'NR', 'NS', 'PO', 'FO8',
+                                 'F7S', 'F7S8', 'FR', 'N2L1D', 'F2L3D',
+                                 'FB']))
+    if game in ('F7S', 'F7S8', 'FR'):
+        blinds = [0] * n
+        reps['blinds'] = ('list', blinds)
+        if not any(antes):
+            antes = [1] * n
+            reps['antes'] = represent(draw, antes)
     return dict(kind='layout', n=n, bb=bb, antes=antes, blinds=blinds,
                 stacks=stacks, reps={k: [h, r] for k, (h, r) in reps.items()},
-                seed=draw(st.integers(0, 10 ** 6)))
+                seed=draw(st.integers(0, 10 ** 6)), game=game,
+                route=draw(st.sampled_from(['create_state', 'game_call'])))
 
 
 CARD_TEXT = [r + s for r in '23456789TJQKA' for s in 'cdhs']
@@ -221,7 +231,7 @@ def hands_case(draw):
 
 def budget(tier):
     if tier == 'quick':
-        return dict(examples=8000, wall=90)
+        return dict(examples=20000, wall=90)
     return dict(examples=200000, wall=1200)
 
 
@@ -230,10 +240,24 @@ def strategy(tier):
                      helper_case(), hands_case())
 
 
-def _state(antes, blinds, stacks, n, bb, seed, autos=FULL):
+def _state(antes, blinds, stacks, n, bb, seed, autos=FULL, game='NT',
+           route='create_state'):
+    """Any of the twelve predefined variants, through ``create_state`` or
+    through a game object that is then called with (stacks, player count)."""
+    from ..engine import GAMES
     random.seed(seed)
-    return NoLimitTexasHoldem.create_state(
-        autos, False, antes, blinds, bb, stacks, n, mode=Mode.CASH_GAME)
+    cls_name, sig, _, _, _ = GAMES[game]
+    cls = getattr(pokerkit, cls_name)
+    if sig == 'blinds1':
+        head = (autos, False, antes, blinds, bb)
+    elif sig == 'blinds2':
+        head = (autos, False, antes, blinds, bb, 2 * bb)
+    else:
+        # stud: antes + bring-in, no blinds
+        head = (autos, False, antes, max(1, bb // 2), bb, 2 * bb)
+    if route == 'create_state':
+        return cls.create_state(*head, stacks, n, mode=Mode.CASH_GAME)
+    return cls(*head, mode=Mode.CASH_GAME)(stacks, n)
 
 
 def check(case, stats):
@@ -245,16 +269,19 @@ def check(case, stats):
         warnings.simplefilter('ignore')
         if kind == 'layout':
             n, bb = case['n'], case['bb']
+            gk = dict(game=case.get('game', 'NT'),
+                      route=case.get('route', 'create_state'))
+            stats.count('game:' + gk['game'])
             try:
                 a = _state(case['antes'], case['blinds'], case['stacks'], n,
-                           bb, case['seed'])
+                           bb, case['seed'], **dict(gk, route='create_state'))
             except ValueError:
                 stats.count('layout_refused_by_engine')
                 return []
             reps = {k: materialise(v[1]) for k, v in case['reps'].items()}
             try:
                 b = _state(reps['antes'], reps['blinds'], reps['stacks'], n,
-                           bb, case['seed'])
+                           bb, case['seed'], **gk)
             except Exception as e:  # noqa: BLE001
                 if not _is_engine_exception(e):
                     raise     # harness fault: exit 2
